@@ -4,6 +4,11 @@ use std::fmt::Write as _;
 use std::io::Write;
 use std::panic::{catch_unwind, AssertUnwindSafe};
 
+thread_local! {
+    /// when set, `Rng::bytes` yields incompressible noise only (cases that need a given amount of COMPRESSED data)
+    pub static NOISE_ONLY: std::cell::Cell<bool> = std::cell::Cell::new(false);
+}
+
 #[derive(Clone)]
 pub struct Rng(pub u64);
 impl Rng {
@@ -39,6 +44,7 @@ impl Rng {
     /// bytes drawn from one of several "adversarial" distributions
     pub fn bytes(&mut self, n: usize) -> Vec<u8> {
         let mode = self.below(6);
+        let mode = if NOISE_ONLY.with(|c| c.get()) { 0 } else { mode };
         (0..n)
             .map(|i| match mode {
                 0 => self.byte(),
